@@ -14,7 +14,7 @@ from fractions import Fraction
 import z3
 
 from .. import symreal
-from ..common import Report, pmap, trace_functions, worker_result
+from ..common import ModuleStateGuard, Report, pmap, trace_functions, worker_result
 from ..pipeline import PipeConnection, TraceExecutor
 from ..symreal import PI_F, R, SymReal
 from ..symx import Explorer, Infeasible, Ob, PathAbort, SymInt, cur, run_concrete
@@ -27,11 +27,15 @@ T_SMALL = Fraction(255, 2 ** 32)       # below this tolerance steps with exponen
 MAX_STEPS = 8
 
 
+_STATE = ModuleStateGuard(sp)       # (sp is imported above) module-level state of state_prep is reset before every path / replay
+
+
 def make_body(spec, falsify=False):
     tol_lo, tol_hi, d0 = Fraction(spec["tol_lo"]), Fraction(spec["tol_hi"]), spec["d0"]
     nomod = bool(spec.get("nomod"))     # fallback exploration for code that does not reduce the angle with the float modulo
 
     def body(inp):
+        _STATE.reset()
         ex = cur()
         ex.nfresh = 0          # names of the fresh floor / remainder terms must be the same on every re-execution
         ex.nlog2 = 0
@@ -39,7 +43,7 @@ def make_body(spec, falsify=False):
         tol = z3.Real("tol")
         inp.vars["angle"] = angle
         inp.vars["tol"] = tol
-        ex.assume_expr(tol >= R(tol_lo))
+        ex.assume_expr(tol >= R(Fraction(spec["tol_first_lo"]) if spec.get("tol_first_lo") else tol_lo))
         ex.assume_expr(tol <= R(tol_hi))
         site = {"d0": "none" if d0 is None else "any"}
         if nomod:
@@ -47,6 +51,9 @@ def make_body(spec, falsify=False):
         state = {}
 
         def hook(r):
+            if "r" in state:
+                ex.assume_expr(r == state["r"])      # second call on the same angle: the same remainder
+                return
             state["r"] = r
             if nomod:
                 raise Infeasible()          # the reduction by `%` is what every other spec explores
@@ -78,7 +85,17 @@ def make_body(spec, falsify=False):
         restore = symreal.install(sp)
         try:
             try:
-                nds = sp.get_angle_spec_from_float(SymReal(angle), SymReal(tol))
+                a_sym = SymReal(angle)
+                nds = sp.get_angle_spec_from_float(a_sym, SymReal(tol))
+                if spec.get("twice"):
+                    # a second request for the same angle with a tighter tolerance (state kept between calls must not leak the
+                    # coarser answer); the obligations below are then about this second answer
+                    tol2 = z3.Real("tol2")
+                    inp.vars["tol2"] = tol2
+                    ex.assume_expr(tol2 >= R(tol_lo))
+                    ex.assume_expr(tol2 <= tol)
+                    nds = sp.get_angle_spec_from_float(a_sym, SymReal(tol2))
+                    tol = tol2
                 raised = None
             except (PathAbort, Infeasible):
                 raise
@@ -90,6 +107,8 @@ def make_body(spec, falsify=False):
             symreal.LOG2_HOOK = None
         if getattr(ex, "nfresh", 0) > 6 * MAX_STEPS:  # (before the residual terms below are added)
             raise PathAbort("unwinding bound exceeded")
+        if spec.get("twice"):
+            site["twice"] = True
         if isinstance(d1, int) and ex.nlog2 < 2:
             return []          # single-step paths belong to the "none" partition
         if raised is not None:
@@ -177,7 +196,38 @@ def body_builder(spec):
     return body
 
 
+def body_builder_types(spec):
+    """the angle may be given as any real number type (int, numpy floats): same rotations as for the equal Python float (concrete)"""
+    import numpy as np
+    axis = spec["axis"]
+
+    def emitted(angle):
+        ex = TraceExecutor("ctrl")
+        conn = PipeConnection("app", executor=ex)
+        q = Qubit(conn)
+        getattr(q, "rot_" + axis)(angle=angle)
+        conn.flush()
+        return [t for t in ex.trace if t[0].startswith("rot_")]
+
+    def body(inp):
+        obs = []
+        for val in (1, 3, np.float64(2.25), np.float32(0.5), np.int64(2)):
+            want = emitted(float(val))
+            try:
+                got = emitted(val)
+            except (PathAbort, Infeasible):
+                raise
+            except Exception as e:  # noqa
+                got = f"{type(e).__name__}: {e}"
+            obs.append(Ob("angle_of_any_real_type", got == want and len(want) > 0, {"axis": axis, "type": type(val).__name__},
+                          info={"angle": repr(val), "emitted": repr(got)[:200], "for_float": repr(want)[:200]}))
+        return obs
+    return body
+
+
 def body_of(spec):
+    if spec.get("kind") == "builder_types":
+        return body_builder_types(spec)
     return body_builder(spec) if spec.get("kind") == "builder" else make_body(spec)
 
 
@@ -206,6 +256,10 @@ def _frac(v):
 def replay(harness, cex):
     """concrete replay on the real function with real floats (no stubs)"""
     spec = cex["info"]["spec"]
+    if spec.get("kind") == "builder_types":
+        res = run_concrete(body_builder_types(spec), cex["values"])
+        bad = [(lab, info) for lab, ok, site, info in res if not ok]
+        return bool(bad), f"builder with a non-float angle: {bad[:2]}"
     if spec.get("kind") == "builder":
         res = run_concrete(body_builder(spec), cex["values"])
         bad = [lab for lab, ok, site, info in res if not ok]
@@ -225,7 +279,11 @@ def replay(harness, cex):
     import math
     problems = []
     for angle in candidates:
+        _STATE.reset()
         try:
+            if spec.get("twice"):
+                sp.get_angle_spec_from_float(angle, tol)
+                tol = float(_frac(vals["tol2"]))
             nds = sp.get_angle_spec_from_float(angle, tol)
         except Exception as e:  # noqa
             problems.append(f"angle={angle!r} tol={tol!r}: raises {type(e).__name__}: {e}")
@@ -309,8 +367,11 @@ def main(tier, seed):
         specs.append({"tol_lo": "1/100000000", "tol_hi": "1/100000000", "d0": 6, "d1": 13, "hunt": True, "budget": hb})
         specs.append({"tol_lo": "1/1000000", "tol_hi": "1/1000000", "d0": 8, "d1": 15, "hunt": True, "budget": hb})
     specs.append({"tol_lo": "1/100", "tol_hi": "1/10", "d0": "free", "nomod": True, "budget": 120})
+    for d0 in ((6, 7) if th else (6,)):
+        specs.append({"tol_lo": "1/1000", "tol_first_lo": "1/100", "tol_hi": "1/10", "d0": d0, "d1": "any", "twice": True, "budget": 240})
     for axis in ("X", "Y", "Z"):
         specs.append({"kind": "builder", "axis": axis})
+        specs.append({"kind": "builder_types", "axis": axis})
     nhunt = sum(1 for sp_ in specs if sp_.get("hunt"))
     rep.bounds = [f"EXHAUSTIVE: all real angles (through r = angle mod 2 pi in [0, 2 pi]) x all tolerances in [{float(tol_lo):g}, 0.1] (the SDK's default 1e-4 "
                   f"included), partitioned by the first and second exponent; at most {MAX_STEPS} loop iterations (checked)",
